@@ -67,6 +67,36 @@ def build_dir(variant, repo=None):
     return os.path.join(VERIF, "build", variant + tag)
 
 
+def conv_functions(repo=None):
+    """[(name, kind)] of the vnaconv functions declared in vnaconv.h; kind as
+    in the driver's table: K22 / K22Z (2x2, without / with z0), K2I (2x2 ->
+    input impedances), KN / KNZ / KNI (n x n)"""
+    repo = repo or REPO
+    text = open(os.path.join(repo, "src", "vnaconv.h")).read()
+    text = re.sub(r"/\*.*?\*/", "", text, flags=re.S)
+    text = " ".join(text.split())
+    rows = []
+    for m in re.finditer(r"extern void (vnaconv_\w+)\(([^;]*)\);", text):
+        name, args = m.group(1), m.group(2)
+        a = [x.strip() for x in args.split(",")]
+        has_z0 = any("z0" in x for x in a)
+        has_n = any(x.startswith("int ") for x in a)
+        two = "(*" in a[0]
+        zin = name.endswith("zi") or name.endswith("zin")
+        if two and not zin:
+            kind = "K22Z" if has_z0 else "K22"
+        elif two and zin:
+            kind = "K2I"
+        elif has_n and zin:
+            kind = "KNI"
+        elif has_n:
+            kind = "KNZ" if has_z0 else "KN"
+        else:
+            continue
+        rows.append((name, kind))
+    return rows
+
+
 def gen_conv_table(repo, out):
     """Generate the vnaconv dispatch table from the repository's vnaconv.h."""
     text = open(os.path.join(repo, "src", "vnaconv.h")).read()
